@@ -120,7 +120,7 @@ func (db *DB) Stats() map[string]string {
 	return map[string]string{"size": fmt.Sprint(db.t.Len())}
 }
 
-func (db *DB) NewBatch() dbm.Batch             { return &batch{db: db} }
+func (db *DB) NewBatch() dbm.Batch            { return &batch{db: db} }
 func (db *DB) NewBatchWithSize(int) dbm.Batch { return &batch{db: db} }
 
 func (db *DB) collect(start, end []byte, reverse bool) []item {
